@@ -58,7 +58,8 @@ type c16Opts struct {
 	ETag    bool   `json:"set_etag"`
 	Expires bool   `json:"expires"`
 	Cache   bool   `json:"cache_control"`
-	IOFS    bool   `json:"filesystem_is_io_fs,omitempty"` // StaticOptions.FileSystem = http.FS(os.DirFS(dir)) instead of Directory
+	IOFS    bool   `json:"filesystem_is_io_fs,omitempty"`               // StaticOptions.FileSystem = http.FS(os.DirFS(dir)) instead of Directory
+	DirFS   bool   `json:"filesystem_and_directory_both_set,omitempty"` // FileSystem = http.Dir(dir) AND Directory = the parent that holds the outside files: the file system is what counts
 }
 
 type c16Expect struct {
@@ -127,6 +128,10 @@ func c16Build(root string, o c16Opts) *c16World {
 	if o.IOFS {
 		so.Directory = filepath.Join(root, "does-not-exist")
 		so.FileSystem = http.FS(os.DirFS(filepath.Join(root, "pub")))
+	}
+	if o.DirFS {
+		so.Directory = root
+		so.FileSystem = http.Dir(filepath.Join(root, "pub"))
 	}
 	if o.Expires {
 		so.Expires = func() string { return "EXPIRES-VALUE" }
@@ -334,8 +339,14 @@ func c16Run(r *core.Run) {
 			opts = append(opts, o)
 		}
 	}
+	// both FileSystem and Directory given (the file system counts; the directory here is the parent with the outside files)
+	for _, pf := range []string{"", "/st"} {
+		for _, ix := range []string{"", "g.txt"} {
+			opts = append(opts, c16Opts{Prefix: pf, Index: ix, DirFS: true}, c16Opts{Prefix: pf, Index: ix, DirFS: true, ETag: true, Cache: true})
+		}
+	}
 	methods := []string{"GET", "HEAD", "POST", "PUT", "get", "Head"}
-	r.Rule = "engine E: every request path of up to 3 (thorough 4) segments over {'', ., .., st, stx, pub, f.txt, d, e, h, secret.txt, index.html, %2e%2e, ..\\, f.txt+NUL, g.txt} with and without leading/trailing slash x methods {GET,HEAD,POST,PUT,get,Head} x the option sets (5 prefix spellings x 2 index names, and every combination of ETag/Expires/CacheControl/index/io-fs FileSystem with 2-5 prefix spellings) x If-None-Match {absent, matching, other} over a real directory tree with files outside it; oracle = resolution model over an in-memory copy of the fixture + independent invariants (a 200 body is the content of a regular file inside the directory, no outside token ever appears, 'cannot serve' leaves exactly the rest of the chain's response); non-trivial = path containing '..', an empty segment, NUL, a prefix look-alike or a directory"
+	r.Rule = "engine E: every request path of up to 3 (thorough 4) segments over {'', ., .., st, stx, pub, f.txt, d, e, h, secret.txt, index.html, %2e%2e, ..\\, f.txt+NUL, g.txt} with and without leading/trailing slash x methods {GET,HEAD,POST,PUT,get,Head} x the option sets (5 prefix spellings x 2 index names, and every combination of ETag/Expires/CacheControl/index/io-fs FileSystem with 2-5 prefix spellings, FileSystem and Directory both given) x If-None-Match {absent, matching, other} over a real directory tree with files outside it; oracle = resolution model over an in-memory copy of the fixture + independent invariants (a 200 body is the content of a regular file inside the directory, no outside token ever appears, 'cannot serve' leaves exactly the rest of the chain's response); non-trivial = path containing '..', an empty segment, NUL, a prefix look-alike or a directory"
 	r.Bounds["paths"] = len(paths)
 	r.Bounds["option_sets"] = len(opts)
 	r.Bounds["methods"] = methods
